@@ -23,7 +23,7 @@ const (
 )
 
 func runC28(p *core.Prog, r *core.Report) {
-	r.Explain = "Decides the shape of the access decision, not the decision tables (IsOpAllowed / CalculateAction live in the SDK): (R1) CheckEACL consults an eACL table only when the basic ACL is extendable and the requester's role is not a system role; the bearer token's table is used only on paths where AllowedBearerRules(op) answered true (path-sensitive: the cleared token is followed through the request info), otherwise the container's stored table; a denying final action yields an error, a non-final one ErrNotMatched; (R2) the request info carries a bearer token only after verifyBearerTokenAgainstRequest returned nil (issuer == container owner, container match, AssertUser(sender)); (R3) the role switches cover every acl.Role constant; CheckBasicACL asks IsOpAllowed(operation, role) of the request's own container; the sticky-bit check compares the object owner with the sender key unless the role is Container or the bit is off; (R4) Server.Put evaluates the sticky bit together with the basic ACL (shared with C29). Not covered: the SDK decision tables themselves."
+	r.Explain = "Decides the shape of the access decision, not the decision tables (IsOpAllowed / CalculateAction live in the SDK): (R1) CheckEACL consults an eACL table only when the basic ACL is extendable and the requester's role is not a system role; the bearer token's table is used only on paths where AllowedBearerRules(op) answered true (path-sensitive: the cleared token is followed through the request info), otherwise the container's stored table; a denying final action yields an error, a non-final one ErrNotMatched; (R2) the request info carries a bearer token only after verifyBearerTokenAgainstRequest returned nil (issuer == container owner, container match, AssertUser(sender)); (R3) the role switches cover every acl.Role constant; CheckBasicACL asks IsOpAllowed(operation, role) of the request's own container; the sticky-bit check compares the object owner with the sender key unless the role is Container or the bit is off; (R4) the requester classifier returns a privileged role only on evidence obtained for this very request: Owner only if author == container owner, InnerRing only if the key equals an entry of the list fetched in this call, Container only if InContainerInLastTwoEpochs(this container, this key) answered (true, nil) in this call — directly or through a helper whose every 'true' passes that question, so a remembered answer does not count. Not covered: the SDK decision tables themselves; what the chain client caches below the FSChain interface."
 	fn := p.Func(aclT + ".CheckEACL")
 	if fn == nil {
 		r.Fatalf("C28: CheckEACL not found")
@@ -214,6 +214,111 @@ func runC28(p *core.Prog, r *core.Report) {
 			Derived: []core.Derived{{Name: "sticky-satisfied", Alts: [][]string{{"role-is-container"}, {"not-sticky"}, {"owner-matches-sender-key"}}}}, Need: []string{"sticky-satisfied"}})
 	} else {
 		r.Fatalf("C28.R3: StickyBitCheck not found")
+	}
+	// ---------------- R4 a privileged role needs fresh evidence
+	r4 := r.Rule("C28.R4", "classify returns a privileged role only on evidence obtained for this request: owner ⇐ author==container owner; inner ring ⇐ key found in the list fetched now; container ⇐ InContainerInLastTwoEpochs(this container, this key)==(true,nil) asked now (directly or through a helper whose every 'true' passes it)", 4)
+	cfn := p.Func("(pkg/services/object/acl/v2.senderClassifier).classify")
+	if cfn == nil {
+		r.Fatalf("C28.R4: senderClassifier.classify not found")
+		return
+	}
+	roleK := func(n string) int64 {
+		v, _ := p.ConstInt("github.com/nspcc-dev/neofs-sdk-go/container/acl." + n)
+		return v
+	}
+	askNow := func(fn *ssa.Function, cnrParam, keyParam int) core.Guard {
+		return core.Guard{Name: "in-container-asked-now", Comps: []core.Comp{{Result: 0, Kind: core.IsTrue}, {Result: 1, Kind: core.ErrNil}}, Match: func(s core.Site) bool {
+			a := s.Call.Common().Args
+			return strings.HasSuffix(s.Name, "FSChain).InContainerInLastTwoEpochs") && len(a) == 2 && core.RootParam(fn, a[0]) == cnrParam && core.RootParam(fn, a[1]) == keyParam
+		}}
+	}
+	cnrG := askNow(cfn, 1, 4)
+	direct := cnrG.Match
+	cnrG.Match = func(s core.Site) bool {
+		if direct(s) {
+			return true
+		}
+		// helper of the same package: every (true, nil) return passes the question for the parameters fed from classify's container and key
+		cal := core.StaticCallee(s.Call)
+		if cal == nil || cal.Blocks == nil || core.FuncPkg(cal) != core.FuncPkg(cfn) || cal.Signature.Results().Len() != 2 {
+			return false
+		}
+		ci, ki := -1, -1
+		for i, a := range s.Call.Common().Args {
+			switch core.RootParam(cfn, a) {
+			case 1:
+				ci = i
+			case 4:
+				ki = i
+			}
+		}
+		if ci < 0 || ki < 0 {
+			return false
+		}
+		return core.SuccessHolds(p, cal, core.SuccessRule{ResultIdx: 0, SuccessBool: true, Guards: []core.Guard{askNow(cal, ci, ki)}})
+	}
+	gs := []core.Guard{
+		{Name: "author-is-owner", Comps: []core.Comp{{Result: -1, Kind: core.IsTrue}}, Value: func(f *ssa.Function, v ssa.Value) bool {
+			bo, ok := v.(*ssa.BinOp)
+			if !ok || bo.Op != token.EQL {
+				return false
+			}
+			x, y := core.RootParam(f, bo.X), core.RootParam(f, bo.Y)
+			return x == 2 && y == 3 || x == 3 && y == 2
+		}},
+		{Name: "key-in-inner-ring-list", Comps: []core.Comp{{Result: 0, Kind: core.IsTrue}, {Result: 1, Kind: core.ErrNil}}, Match: func(s core.Site) bool {
+			return s.Name == "(pkg/services/object/acl/v2.senderClassifier).isInnerRingKey" && core.RootParam(cfn, s.Call.Common().Args[1]) == 4
+		}},
+		cnrG,
+	}
+	core.CheckEffectsFn(p, r4, cfn, core.EffectRule{Min: 3, Guards: gs, Effect: func(_ *core.Prog, in ssa.Instruction) (string, bool) {
+		ret, ok := in.(*ssa.Return)
+		if !ok || len(ret.Results) != 2 {
+			return "", false
+		}
+		k, isK := intConstOf(ret.Results[0])
+		if !isK {
+			return "return of a computed role", true
+		}
+		switch k {
+		case roleK("RoleOwner"):
+			return "return RoleOwner", true
+		case roleK("RoleInnerRing"):
+			return "return RoleInnerRing", true
+		case roleK("RoleContainer"):
+			return "return RoleContainer", true
+		}
+		return "", false
+	}, Need: func(d string) []string {
+		switch d {
+		case "return RoleOwner":
+			return []string{"author-is-owner"}
+		case "return RoleInnerRing":
+			return []string{"key-in-inner-ring-list"}
+		case "return RoleContainer":
+			return []string{"in-container-asked-now"}
+		}
+		return []string{"author-is-owner", "key-in-inner-ring-list", "in-container-asked-now"}
+	}})
+	if ifn := p.Func("(pkg/services/object/acl/v2.senderClassifier).isInnerRingKey"); ifn == nil {
+		r.Fatalf("C28.R4: isInnerRingKey not found")
+	} else {
+		core.CheckSuccessFn(p, r4, ifn, core.SuccessRule{ResultIdx: 0, SuccessBool: true, MinReturns: 1, Guards: []core.Guard{{Name: "key-equals-a-fetched-key", Comps: []core.Comp{{Result: -1, Kind: core.IsTrue}}, Match: func(s core.Site) bool {
+			if s.Name != "bytes.Equal" {
+				return false
+			}
+			a := s.Call.Common().Args
+			fetched := func(v ssa.Value) bool {
+				ok := false
+				walkOperands(v, 8, func(x ssa.Value) {
+					if c, isC := x.(*ssa.Call); isC && strings.HasSuffix(core.CalleeName(c), "InnerRingFetcher).InnerRingKeys") {
+						ok = true
+					}
+				})
+				return ok
+			}
+			return fetched(a[0]) && core.RootParam(ifn, a[1]) == 1 || fetched(a[1]) && core.RootParam(ifn, a[0]) == 1
+		}}}})
 	}
 }
 
